@@ -35,6 +35,36 @@ Facets
                first/last duplicate) equal pandas as a multiset.  Row order is never compared.  ``keep=False`` is
                documented unsupported (NotImplementedError -> unsupported).
 
+Parameter audit stream (cases carrying ``x``; about one per two base cases, at random positions of the stream)
+---------------------------------------------------------------------------------------------------------------
+Keywords / input classes / STATE that the base stream never produces; the oracles are the ones above.
+``shuffle``    ``on=`` a dask Series (also an expression ``col % 3``), the Index object, a DataFrame, ``[column, index name]``;
+               ``force=True``; ``Series.shuffle(on_index=True)``; 130 / 200 / 257 output partitions; frames of 300-1200 rows;
+               a consumer AFTER the shuffle that the optimiser pushes below it (``[columns]`` / a row filter, views
+               ``graph&then-project`` / ``&then-filter``, labels ``shuffle[&on-...]:then-<kind>:...``); a second shuffle of a frame
+               that an earlier shuffle / merge / groupby / drop_duplicates partitioned on overlapping keys.
+``sort``       ``sort_function=`` / ``sort_function_kwargs=`` (both order by the keys and then by the unique column ``u``: the whole
+               row sequence is then determined and compared exactly, label ``sort_values:sort_function[_kwargs]:graph:rows-order``);
+               ``upsample`` 0.5 / 2 / 10; ``npartitions="auto"``; input already ordered by the first key (ascending / descending /
+               as asked: the presorted shortcut, counted ``sorts_lowered_without_shuffle``); pre-steps; ``.head(n)`` / ``.tail(n)``
+               (NFirst / NLast rewrite; n 0..50; key sequence = pandas' first / last n, every row a row of the frame; by the
+               documented caveat possibly only the rows of the first / last partition), ``[columns without the keys]`` (keys
+               recovered through ``u``), a row filter; a SECOND sort of the same collection with the same first key (cached
+               quantile divisions) and other later keys / na_position / method.
+``set_index``  ``other`` as ``[col]``, as the dask Series ``ddf[col]``, as an expression ``ddf[col] * 2``; ``sort=False`` (exactly
+               pandas.set_index: same rows, same order); ``sorted=True`` WITH ``divisions`` (partitions cut at the division values);
+               ``npartitions="auto"``; ``upsample``; pre-steps; head / tail / column selection / row filter after it; a second
+               set_index of the same collection with other ``drop`` / method.
+``dedup``      frames carrying hash-partitioning knowledge on a key TUPLE from an earlier shuffle (+ assign / rename / add_prefix /
+               repartition to fewer AND to more partitions / an assign that OVERWRITES a key column), a hash merge, a groupby
+               aggregation with split_out, a drop_duplicates; de-duplicated on a part of / exactly / more than / other columns than
+               the known keys (counters ``dedup_subset_<relation>_known_keys``); ``subset`` as ONE string (also names whose letters
+               are column names: ``kn``); Series facets on a column of a shuffled frame; Index.drop_duplicates / unique with
+               split_every / split_out / shuffle_method; 5-12 input partitions with split_every 2 / 3 (an intermediate combine
+               level, or a shuffle wider than split_out).
+Sibling monitor (vf/mon/siblings.py) on audit cases with the deterministic task shuffle: the collection next to one that differs in
+na_position / ascending / ignore_index (sort), drop (set_index), keep (drop_duplicates), npartitions (shuffle), both in one graph.
+
 Labels: ``shuffle:<method>[&multi-stage][&on-index]:<view>:key-in-two-partitions[:na-key(<dtype kinds>)]`` /
 ``...:rows-<kind>``.  ``sort_values:<mechanism feature>:<view>:key-order`` (first key column out of order) /
 ``sort_values:multi-column...:<view>:secondary-key-order`` (first key right, later keys wrong) /
@@ -63,6 +93,20 @@ Calibration (unchanged tree)
 * when the graph view of a sort/set_index already disagrees, the compute() view is not judged (same pipeline; avoids two
   labels for one mechanism).
 * ``keep=False`` raises NotImplementedError by documentation -> unsupported.
+* (audit) false alarm corrected: ``set_index(sort=False)`` AFTER a pre-step was compared in pandas' row order; a shuffle / merge /
+  groupby has no row order -> multiset there (exact order only without a pre-step).
+* (audit) false alarm corrected: the sibling monitor compared ``keep='first'`` survivors / ``ignore_index`` labels between two graphs
+  that contain a disk shuffle (also the sync scheduler's default): the disk shuffle orders rows by execution order -> siblings
+  only for ``shuffle_method="tasks"`` throughout; partitions are compared as sorted row multisets.
+* (audit) generator restricted: a pre-step that fails WITHOUT the C40 operation (same consumer applied to the pre-step's output:
+  e.g. ``groupby(k).agg(split_out=2).reset_index()`` followed by a row filter raises IndexingError on some data) is the business
+  of that operation's own property -> ``unsupported`` (counted ``pre_step_failures_outside_c40``).  The pre-step keys are the
+  NA-free columns a / b / d / e (NA semantics of merge / groupby belong to C38 / C39); the overwriting assign keeps the dtype
+  (``str.len()`` gives float64 meta in dask, int64 in pandas: C42's business).
+* (audit) ``head()`` / ``tail()`` document that they look at the first / last partition only: a result with
+  ``min(n, len(first/last partition))`` rows is accepted next to ``min(n, len)``; rows tied at the cut may be any of the tied rows.
+* (audit) ``Series.shuffle(on=<own name>)`` raises RuntimeError (no columns to select) - not generated: the statement speaks of
+  shuffling on columns or the index; ``set_index(append=True)`` is not in the documented parameter list - not generated.
 """
 from __future__ import annotations
 
@@ -72,13 +116,15 @@ import warnings
 PROP = "C40"
 RULE = ("case = (operation facet, frame seed, rows 0..40, index kind, partitioning incl. empty partitions and unknown "
         "divisions, keywords); facets shuffle / sort_values / set_index / drop_duplicates-unique-nunique with the keyword "
-        "ranges of the module docstring; non-trivial = the input has >= 2 partitions and >= 2 rows; distinct = distinct "
-        "case descriptions")
+        "ranges of the module docstring; a second, interleaved stream of parameter-audit cases (about one per two base cases) adds "
+        "the keywords / key forms / sizes / pre-steps (partitioning knowledge from an earlier shuffle, merge, groupby, "
+        "drop_duplicates) / consumers (head, tail, column selection, row filter) / second operations of the docstring's audit "
+        "section; non-trivial = the input has >= 2 partitions and >= 2 rows; distinct = distinct case descriptions")
 ASSUMPTIONS = [
     "pandas 3 is the reference for sort order (stable), NA placement, duplicate semantics; NA keys equal each other",
     "partitions are what dask.compute(*r.to_delayed()) / r.partitions[i] return; sync scheduler; pyarrow import stub",
 ]
-BUDGET = {"quick": 75, "thorough": 560}
+BUDGET = {"quick": 110, "thorough": 800}
 _QF = {"shuffles_checked": 250, "shuffle_key_sets_checked": 240, "shuffle_partitions_observed": 1100,
        "multi_stage_task_shuffles": 35, "shuffles_with_na_keys": 110, "shuffles_spreading_over_partitions": 200,
        "shuffle_method_disk": 120, "shuffle_method_tasks": 130, "shuffles_changing_npartitions": 170,
@@ -130,6 +176,30 @@ PENDING = {
     "drop_duplicates:shuffle=disk:survivor":
         "drop_duplicates(keep='first'|'last', shuffle_method='disk') keeps an arbitrary duplicate (other columns / index label "
         "differ from pandas): the disk shuffle does not keep row order",
+    # ---- found by the parameter audit (fixes_ready/C40_04..09 repair them; known findings for trees without the patches)
+    "sort_values:na-in-keys&na_position=first:head:key-order":
+        "sort_values(na_position='first').head(n): the NFirst rewrite sorts with the default na_position (C40_04)",
+    "sort_values:na-in-keys&na_position=first:tail:key-order":
+        "sort_values(na_position='first').tail(n): the NLast rewrite sorts with the default na_position (C40_04)",
+    "set_index:drop=False:head:rows-columns":
+        "set_index(col, drop=False).head(n): the rewritten set_index uses drop=True, the column is lost (C40_05)",
+    "set_index:drop=False:tail:rows-columns":
+        "set_index(col, drop=False).tail(n): same rewrite (C40_05)",
+    "shuffle&on-dask-collection:then-project:ValueError@dataframe/dask_expr/_expr.py:__bool__":
+        "shuffle(on=<Series/Index/DataFrame>)[columns]: the projection pushdown evaluates 'col in <expression>' (C40_06)",
+    "shuffle&on-dask-collection:then-filter:rows":
+        "shuffle(on=<Series/Index/DataFrame>)[row filter]: the filter is pushed below the shuffle, the key stays unfiltered (C40_07)",
+    "set_index&other=series:filter:rows":
+        "set_index(<Series>)[row filter]: same pushdown, the Series of the new index stays unfiltered (C40_07)",
+    "set_index:other=series&npartitions=1&several-input-partitions:ValueError@dataframe/dask_expr/_shuffle.py:operation":
+        "set_index(<Series>, npartitions=1): the frame is brought to one partition, the Series is not (C40_08)",
+    "sort_values:npartitions=auto:TypeError@dataframe/dask_expr/_quantiles.py:_layer":
+        "sort_values(npartitions='auto'): the documented value reaches RepartitionQuantiles as a string (C40_09)",
+    "set_index:npartitions=auto:TypeError@dataframe/dask_expr/_quantiles.py:_layer":
+        "set_index(npartitions='auto'): same (C40_09)",
+    "dedup:pre-shuffled&single-input-partition&split_out>1:AssertionError@dataframe/dask_expr/_repartition.py:_partitions_boundaries":
+        "unique/drop_duplicates/nunique(split_out>1) on a one-partition frame with partitioning knowledge: split_out partitions are "
+        "reported, one exists; compute() asserts (repaired by C38_10)",
 }
 # Labels found on the pinned tree and repaired by fixes_ready/C40_0x (documentation only; they are violations wherever the
 # patches are not applied).
@@ -238,8 +308,8 @@ def _pre_desc(rx, must=None):
     keys = rx.sample(PREKEYS, rx.choice((1, 2, 2, 3)))
     if must is not None and must not in keys:
         keys[0] = must
-    return {"kind": rx.choice(("shuffle", "shuffle+assign", "shuffle+rename", "shuffle+prefix", "shuffle+repart", "merge", "merge",
-                               "dedup", "groupby", "groupby")),
+    return {"kind": rx.choice(("shuffle", "shuffle+assign", "shuffle+rename", "shuffle+prefix", "shuffle+repart", "shuffle+repart",
+                               "shuffle+overwrite", "merge", "merge", "dedup", "groupby", "groupby")),
             "keys": keys, "np": rx.choice((None, None, 2, 3, 5)), "method": rx.choice((None, "tasks", "disk")),
             "rnp": rx.randint(1, 3)}
 
@@ -255,7 +325,7 @@ def _ext_case(rx):
     c = _base(rx)
     if c["nrows"] < 4:
         c["nrows"] = rx.randint(4, 40)
-    op = rx.choice(("shuffle", "sort", "sort", "set_index", "set_index", "dedup"))
+    op = rx.choice(("shuffle", "shuffle", "sort", "sort", "set_index", "set_index", "dedup", "dedup", "dedup"))
     _fill(c, rx, op)
     x = {}
     big = rx.random() < 0.07 and op != "dedup"
@@ -268,7 +338,7 @@ def _ext_case(rx):
     if op == "shuffle":
         r = rx.random()
         if r < 0.35:
-            x["onkind"] = rx.choice(("series", "series", "indexobj", "frame", "col+index", "col+index"))
+            x["onkind"] = rx.choice(("series", "series", "indexobj", "frame", "frame", "col+index"))
             if not isinstance(c["on"], list):
                 c["on"] = rx.sample(KEYCOLS, rx.choice((1, 2)))
             c["onform"] = "list"
@@ -278,8 +348,9 @@ def _ext_case(rx):
             x["force"] = True
         if rx.random() < 0.1 and not big:
             c["np"] = rx.choice((130, 200, 257))
+            c["accessor"] = False             # (one graph per partition would be 130+ optimisations)
             x["bignp"] = True
-        if rx.random() < 0.3 and "onkind" not in x and "ser" not in x:
+        if rx.random() < 0.2 and "onkind" not in x and "ser" not in x:
             x["pre"] = _pre_desc(rx)
             if isinstance(c["on"], list) and rx.random() < 0.7:      # shuffle again on a part / superset / the same keys
                 k = x["pre"]["keys"]
@@ -302,7 +373,7 @@ def _ext_case(rx):
                     c["asc"] = c["asc"][:len(c["by"])]
         if rx.random() < 0.04:
             c["np"] = "auto"
-        if rx.random() < 0.25:
+        if rx.random() < 0.15:
             x["pre"] = _pre_desc(rx)
         if rx.random() < 0.45:
             x["post"] = _post_desc(rx, ("head", "head", "tail", "tail", "project", "filter"))
@@ -323,7 +394,7 @@ def _ext_case(rx):
             c["mode"] = "auto"
         if rx.random() < 0.3:
             x["upsample"] = rx.choice((0.5, 2.0, 10.0))
-        if rx.random() < 0.25:
+        if rx.random() < 0.15:
             x["pre"] = _pre_desc(rx)
         if rx.random() < 0.45:
             x["post"] = _post_desc(rx, ("head", "head", "tail", "tail", "project", "filter"))
@@ -331,7 +402,7 @@ def _ext_case(rx):
             x["second"] = {"drop": rx.random() < 0.5, "method": rx.choice(METHODS)}
     else:
         r = rx.random()
-        if r < 0.55:
+        if r < 0.65:
             # de-duplication of a frame that carries partitioning knowledge from an earlier shuffle / merge / groupby /
             # drop_duplicates: on a part of, all of, or more than the known key tuple
             c["kind"] = "preshuffled"
@@ -341,14 +412,18 @@ def _ext_case(rx):
             extra = rx.choice(("u", "f", "a", "b", "d", "e"))
             c["dcols"] = list(dict.fromkeys(k + [extra]))
             x["subset"] = rx.choice((None, k[:1], k[:1], list(k), list(k) + [extra], [extra], k[-1:]))
-        elif r < 0.7:
+        elif r < 0.77:
             x["serpre"] = True               # Series facets on a column of a shuffled frame
             c["kind"] = rx.choice(("series", "series_unique", "series_nunique"))
-        elif r < 0.85:
+        elif r < 0.88:
             c["kind"] = "index"
             x["ixkw"] = True                 # Index.drop_duplicates / unique with split_every / shuffle_method / keep
         if rx.random() < 0.5:
             x["subset_str"] = True
+            if "pre" not in x and c["kind"] in ("df", "preshuffled") and rx.random() < 0.6:
+                # subset given as ONE string; mostly a name whose letters are column names themselves
+                c["subset"] = "first1"
+                c["dcols"] = [rx.choice(("kn", "kn", "k2", "a", "s"))] + [v for v in c["dcols"] if v not in ("kn", "k2", "a", "s")][:2]
         if rx.random() < 0.5:
             # more input partitions than split_every: an intermediate combine level / a widened shuffle exists
             c["part"] = {"how": "npartitions", "n": rx.randint(5, 12), "clear": rx.random() < 0.2}
@@ -368,7 +443,7 @@ def cases(tier, seed):
         if i % 4 == 0:      # every block of four holds each facet once, in random order (shards take i % nshards)
             block = rng.sample(("shuffle", "sort", "set_index", "dedup"), 4)
         yield _fill(c, rng, block[i % 4])
-        if rx.random() < 0.4:                                # at random positions: every shard gets its share
+        if rx.random() < 0.5:                                # at random positions: every shard gets its share
             yield _ext_case(rx)
 
 
@@ -547,7 +622,7 @@ def run_case(case, ctx):
         {"shuffle": _shuffle, "sort": _sort, "set_index": _set_index, "dedup": _dedup}[case["op"]](case, ctx, pdf, ddf)
 
 
-def _guard(ctx, feat, fn, desc, refine=None, collapse=None):
+def _guard(ctx, feat, fn, desc, refine=None, collapse=None, pre_probe=None):
     """run a dask-side thunk; classify exceptions.  -> (ok, value).  ``refine()`` -> extra input-feature predicate
     (evaluated only when an exception has to be labelled).  ``collapse`` = (exception types, label): these exceptions are
     one symptom of a mechanism that also shows as wrong rows -> that ONE label"""
@@ -556,6 +631,15 @@ def _guard(ctx, feat, fn, desc, refine=None, collapse=None):
     except NotImplementedError as e:
         ctx.unsupported("%s: %s" % (feat, e))
     except Exception as e:  # noqa: BLE001
+        if pre_probe is not None:
+            # a case with a pre-step: when the pre-step (with the same consumer) fails WITHOUT the C40 operation, the failure
+            # is the business of the pre-step's own property (merge / groupby / optimiser), not a C40 verdict
+            try:
+                pre_probe()
+            except Exception as e2:  # noqa: BLE001
+                ctx.unsupported("the pre-step alone fails the same way: %s: %s" % (type(e2).__name__, str(e2)[:120]))
+                ctx.count("pre_step_failures_outside_c40")
+                return False, None
         if collapse is not None and isinstance(e, collapse[0]) and dask_frame_of(e):
             ctx.violation(collapse[1], "%s: %s" % (type(e).__name__, str(e)[:300]), case=desc)
             return False, None
@@ -633,7 +717,14 @@ def _apply_pre(pre, pdf, ddf):
             colmap = {c: "p_" + c for c in pdf.columns}
             d, p = d.add_prefix("p_"), p.add_prefix("p_")
         elif kind == "shuffle+repart":
-            d = d.repartition(npartitions=max(1, d.npartitions // 2))
+            # fewer partitions keep "equal keys in one partition", more partitions do not
+            d = d.repartition(npartitions=max(1, d.npartitions // 2) if pre.get("rnp", 1) == 1 else d.npartitions * 2 + 1)
+        elif kind == "shuffle+overwrite":
+            # a blockwise step that OVERWRITES a key column: the knowledge on the key tuple is void afterwards
+            # (computed from the old values of that column, so that the column is not simply projected away below)
+            f = {"a": lambda z: z["a"] % 2, "b": lambda z: z["b"].str.slice(0, 1), "d": lambda z: z["d"].abs(),
+                 "e": lambda z: z["e"] & (z["a"] > 1)}[K[0]]
+            d, p = d.assign(**{K[0]: f(d)}), p.assign(**{K[0]: f(p)})
     elif kind == "merge":
         right = pdf[K].drop_duplicates().reset_index(drop=True)
         right["w"] = np.arange(len(right), dtype="int64")
@@ -688,6 +779,58 @@ def _threshold(pdf, fc, q):
     if len(v) == 0:
         return None
     return v.sort_values().iloc[min(len(v) - 1, int(q * len(v)))].item()
+
+
+def S_pick(case, n):
+    from vf.mon import siblings as S
+
+    return S.pick(case, n, salt="c40")
+
+
+def _canon(parts):
+    """partition-wise canonical value of a collection for the sibling monitor: the rows of every partition as a sorted
+    multiset (the row order inside a partition is not stable between two graphs for the disk shuffle)"""
+    from vf.gen import frames as F
+
+    out = []
+    for p in parts:
+        try:
+            q = F._sorted(p, True)
+            out.append((tuple(map(str, getattr(q, "columns", [getattr(q, "name", None)]))), q.to_json(orient="split", date_format="iso", default_handler=str)))
+        except Exception:  # noqa: BLE001
+            out.append(repr(p))
+    return out
+
+
+def _sibling(ctx, case, op, param, a, build_b):
+    """the collection of the case next to ONE sibling that differs in one result-relevant keyword, both in one graph
+    (vf/mon/siblings.py): shared output keys with different values, or values that change when computed together"""
+    import dask
+
+    from vf.mon import siblings as S
+
+    def many(colls):
+        ds = [c.to_delayed() for c in colls]
+        flat = dask.compute(*[d for one in ds for d in one], scheduler="sync")
+        res, k = [], 0
+        for one in ds:
+            res.append(_canon(flat[k:k + len(one)]))
+            k += len(one)
+        return res
+
+    x = case.get("x") or {}
+    if case.get("method") != "tasks" or (x.get("pre") and x["pre"].get("method") != "tasks"):
+        return      # the disk shuffle (also the default of the sync scheduler) orders rows by execution order: values of
+        #             keep=first / ignore_index legitimately differ between two graphs
+    try:
+        S.check(ctx, op, param, a, build_b, compute=lambda c: _canon(_parts(c)), compute_many=many,
+                together=S.want_together(case, 0.5, salt="c40"))
+    except Exception as e:  # noqa: BLE001  (the monitor itself must never decide a case by failing)
+        from vf.core.ctx import CaseTimeout
+
+        if isinstance(e, CaseTimeout):
+            raise
+        ctx.count("siblings_monitor_errors")
 
 
 # ---- shuffle ---------------------------------------------------------------------------------------------------------
@@ -796,7 +939,15 @@ def _shuffle(case, ctx, pdf, ddf):
 
     # (a row filter after a shuffle keyed by a separate collection: misaligned key -> ValueError or wrong rows, one label)
     coll = (ValueError, pfeat + ":rows") if pfeat and "&on-dask-collection:then-filter" in pfeat else None
-    ok, parts = _guard(ctx, pfeat or (feat + ":" + view), build, desc, collapse=coll)
+    def probe():
+        b = src_d
+        if pfilter and pfilter[0] == "project":
+            b = b[pfilter[1]]
+        elif pfilter:
+            b = b[b[pfilter[1]] >= pfilter[2]]
+        return _parts(b)
+
+    ok, parts = _guard(ctx, pfeat or (feat + ":" + view), build, desc, collapse=coll, pre_probe=probe if info is not None else None)
     if not ok:
         return
     if x.get("ser"):
@@ -817,6 +968,10 @@ def _shuffle(case, ctx, pdf, ddf):
         for k in ("onkind", "ser", "force", "bignp", "big"):
             if x.get(k):
                 ctx.count("shuffle_x_" + (k if k != "onkind" else "on_" + x[k].replace("+", "_")))
+        if onkind:
+            ctx.count("shuffle_on_collection_or_column_and_index")
+        if x.get("big"):
+            ctx.count("big_frames")
         if pfilter:
             ctx.count("shuffle_then_" + pfilter[0])
         if info:
@@ -866,6 +1021,9 @@ def _shuffle(case, ctx, pdf, ddf):
     if m is not None:
         ctx.violation("%s:%s:rows-%s" % (feat, view, m[0]), "rows of the shuffled frame differ from the input (as multisets): %s" % m[1],
                       case=desc, partition_lengths=[len(q) for q in parts])
+    if x and not pfilter and not x.get("bignp") and m is None:
+        kw2 = dict(kw, npartitions=(nout % 7) + 2 if (nout % 7) + 2 != nout else nout + 1)
+        _sibling(ctx, case, "shuffle", "npartitions", src_d.shuffle(**kw), lambda: src_d.shuffle(**kw2))
     ctx.sample = {"feat": feat, "view": view, "keys": len(seen), "partition_lengths": [len(p) for p in parts][:12]}
 
 
@@ -999,6 +1157,7 @@ def _sort(case, ctx, pdf, ddf):
         asc2 = [a0] + [bool(v) for v in (s2["asc2"] + [True])[:len(by2) - 1]]
         c2 = dict(case, by=by2, asc=asc2, na=s2["na"], method=s2["method"], byform="list", also_compute=False)
         ctx.count("sorts_second_on_same_collection")
+        ctx.count("second_operation_on_same_collection")
         _sort_core(c2, ctx, pdf, ddf, info, {k: v for k, v in x.items() if k == "upsample"}, second=True)
 
 
@@ -1059,10 +1218,11 @@ def _sort_core(case, ctx, pdf, ddf, info, x, second):
     refine = None
     desc = dict(case, input_npartitions=ddf.npartitions)
     byarg = by[0] if case.get("byform") == "str" and len(by) == 1 else by
-    r_ok, r = _guard(ctx, efeat, lambda: ddf.sort_values(byarg, **kw), desc, refine)
+    probe = (lambda: _parts(ddf)) if info is not None else None
+    r_ok, r = _guard(ctx, efeat, lambda: ddf.sort_values(byarg, **kw), desc, refine, pre_probe=probe)
     if not r_ok:
         return False
-    ok, parts = _guard(ctx, efeat, lambda: _parts(r), desc, refine)
+    ok, parts = _guard(ctx, efeat, lambda: _parts(r), desc, refine, pre_probe=probe)
     if not ok:
         return False
     ctx.count("sorts_checked")
@@ -1078,6 +1238,8 @@ def _sort_core(case, ctx, pdf, ddf, info, x, second):
         for k in ("upsample", "big"):
             if x.get(k):
                 ctx.count("sort_x_" + k)
+        if x.get("big"):
+            ctx.count("big_frames")
         if info:
             ctx.count("sort_after_pre_step")
         if x.get("presort"):
@@ -1095,6 +1257,7 @@ def _sort_core(case, ctx, pdf, ddf, info, x, second):
         from vf.gen import frames as F
 
         ctx.count("sorts_with_sort_function_" + x["sf"])
+        ctx.count("sorts_with_user_sort_function")
         m = F.compare(got, exp, ordered=True, check_index=ci)
         if m is not None:
             ctx.violation("sort_values:%s:graph:rows-order" % ("sort_function" if x["sf"] == "func" else "sort_function_kwargs"),
@@ -1105,6 +1268,16 @@ def _sort_core(case, ctx, pdf, ddf, info, x, second):
         if ok:
             ctx.count("compute_views")
             _ordered_check(ctx, feat, "compute", whole, exp, lambda f: f[by], "key", desc, check_index=ci, feat2=feat2)
+    if good and x and not second and case["np"] != "auto":
+        w = S_pick(case, 3)
+        kw2 = dict(kw)
+        if w == 0:
+            kw2["na_position"], param = ("first" if case["na"] == "last" else "last"), "na_position"
+        elif w == 1:
+            kw2["ascending"], param = ([not v for v in asc_list] if not isinstance(asc, bool) else (not asc)), "ascending"
+        else:
+            kw2["ignore_index"], param = (not case["ignore_index"]), "ignore_index"
+        _sibling(ctx, case, "sort_values", param, r, lambda: ddf.sort_values(byarg, **kw2))
     post = x.get("post") if good and not second else None
     if post:
         # head / tail never reach the partitioning: their own (smaller) feature set
@@ -1113,12 +1286,12 @@ def _sort_core(case, ctx, pdf, ddf, info, x, second):
         hfeat = "sort_values:na-in-keys&na_position=first" if nafirst else \
             "sort_values:first-key=%s%s%s" % (k0, "&na&na_position=last" if na0 else "", "" if asc0 else "&descending")
         _sorted_post(ctx, "sort", feat, "sort_values", None if nafirst else feat2, r, exp, pdf, parts, post, info, lambda f: f[by], "key",
-                     desc, ci, by, hfeat)
+                     desc, ci, by, hfeat, base=ddf)
     ctx.sample = {"feat": feat, "partition_lengths": [len(p) for p in parts][:12]}
     return good
 
 
-def _sorted_post(ctx, facet, feat, efeat, feat2, r, exp, pdf, parts, post, info, keyframe, what, desc, ci, keycols, hfeat=None):
+def _sorted_post(ctx, facet, feat, efeat, feat2, r, exp, pdf, parts, post, info, keyframe, what, desc, ci, keycols, hfeat=None, base=None):
     """a consumer of the ordered collection that the optimiser rewrites around the sort: head / tail (NFirst / NLast),
     a column selection, a row filter (both pushed below the sort)"""
     kind = post["kind"]
@@ -1126,10 +1299,12 @@ def _sorted_post(ctx, facet, feat, efeat, feat2, r, exp, pdf, parts, post, info,
         n = post["n"]
         nonempty = [len(p) for p in parts]
         first_len = (nonempty[-1] if kind == "tail" else nonempty[0]) if nonempty else 0
-        ok, got = _guard(ctx, "%s:%s" % (efeat, kind), (lambda: r.tail(n)) if kind == "tail" else (lambda: r.head(n)), desc)
+        ok, got = _guard(ctx, "%s:%s" % (efeat, kind), (lambda: r.tail(n)) if kind == "tail" else (lambda: r.head(n)), desc,
+                         pre_probe=(lambda: _parts(base)) if info is not None and base is not None else None)
         if not ok:
             return
         ctx.count("%s_then_%s" % (facet, kind))
+        ctx.count("ordered_then_head_or_tail")
         _head_check(ctx, hfeat or feat, kind, got, exp, pdf, keyframe, what, n, first_len, desc, check_index=ci, feat2=feat2)
         return
     if kind == "project":
@@ -1145,10 +1320,12 @@ def _sorted_post(ctx, facet, feat, efeat, feat2, r, exp, pdf, parts, post, info,
             cols = rest[:1]
         if not cols:
             return
-        ok, p2 = _guard(ctx, "%s:project" % efeat, lambda: _parts(r[cols]), desc)
+        ok, p2 = _guard(ctx, "%s:project" % efeat, lambda: _parts(r[cols]), desc,
+                        pre_probe=(lambda: _parts(base[[c for c in cols if c in base.columns]])) if info is not None and base is not None else None)
         if not ok:
             return
         ctx.count("%s_then_project" % facet)
+        ctx.count("ordered_then_project_or_filter")
         got = _concat(p2, exp[cols])
         e2 = exp[cols]
         if facet == "sort":
@@ -1156,7 +1333,8 @@ def _sorted_post(ctx, facet, feat, efeat, feat2, r, exp, pdf, parts, post, info,
                 ctx.violation("%s:project:rows-values" % feat, "selection %s after the sort: columns %s, %d rows (pandas %d)"
                               % (cols, list(got.columns), len(got), len(e2)), case=desc)
                 return
-            look = exp.set_index(ucol)[keycols]
+            look = exp[keycols].copy()
+            look.index = exp[ucol].values
             g2 = got.copy()
             for c in keycols:
                 g2["__k_" + c] = look[c].reindex(got[ucol]).values
@@ -1175,10 +1353,12 @@ def _sorted_post(ctx, facet, feat, efeat, feat2, r, exp, pdf, parts, post, info,
             return
         ser = "&other=series" in efeat        # key given as a separate Series: ValueError or wrong rows are ONE mechanism
         ok, p2 = _guard(ctx, "%s:filter" % efeat, lambda: _parts(r[r[fc] >= thr]), desc,
-                        collapse=(ValueError, "%s:filter:rows" % efeat) if ser else None)
+                        collapse=(ValueError, "%s:filter:rows" % efeat) if ser else None,
+                        pre_probe=(lambda: _parts(base[base[fc] >= thr])) if info is not None and base is not None and fc in base.columns else None)
         if not ok:
             return
         ctx.count("%s_then_filter" % facet)
+        ctx.count("ordered_then_project_or_filter")
         e2 = exp[exp[fc] >= thr]
         if ser:
             from vf.gen import frames as F
@@ -1205,6 +1385,7 @@ def _set_index(case, ctx, pdf, ddf):
         # STATE: the same collection indexed a second time by the same column (cached quantile divisions), other drop / method
         s2 = x["second"]
         ctx.count("set_index_second_on_same_collection")
+        ctx.count("second_operation_on_same_collection")
         _set_index_core(dict(case, drop=s2["drop"], method=s2["method"], also_compute=False), ctx, pdf, ddf, info,
                         {k: v for k, v in x.items() if k in ("upsample", "other")}, second=True)
 
@@ -1338,10 +1519,11 @@ def _set_index_core(case, ctx, pdf, ddf, info, x, second):
         efeat = "set_index:other=series&npartitions=1&several-input-partitions"
     refine = None
     desc = dict(case, input_npartitions=ddf.npartitions, kwargs={k: str(v)[:120] for k, v in kw.items()})
-    r_ok, r = _guard(ctx, efeat, lambda: ddf.set_index(argd(), **kw), desc, refine)
+    probe = (lambda: _parts(ddf)) if info is not None else None
+    r_ok, r = _guard(ctx, efeat, lambda: ddf.set_index(argd(), **kw), desc, refine, pre_probe=probe)
     if not r_ok:
         return False
-    ok, parts = _guard(ctx, efeat, lambda: _parts(r), desc, refine)
+    ok, parts = _guard(ctx, efeat, lambda: _parts(r), desc, refine, pre_probe=probe)
     if not ok:
         return False
     ctx.count("set_index_checked")
@@ -1354,8 +1536,12 @@ def _set_index_core(case, ctx, pdf, ddf, info, x, second):
         for k in ("upsample", "big"):
             if x.get(k) and shuffling:
                 ctx.count("set_index_x_" + k)
+        if x.get("big"):
+            ctx.count("big_frames")
         if other:
             ctx.count("set_index_other_" + other)
+            if other != "list1":
+                ctx.count("set_index_other_collection")
         if info:
             ctx.count("set_index_after_pre_step")
     got = _concat(parts, exp)
@@ -1385,13 +1571,16 @@ def _set_index_core(case, ctx, pdf, ddf, info, x, second):
                 ctx.distinct("side_divisions_monitor_kinds", (mode, dv[0]))
     except Exception:  # noqa: BLE001
         pass
+    if good and x and not second and mode in ("plain", "npartitions", "divisions") and other in (None, "list1"):
+        kw2 = dict(kw, drop=not case["drop"])
+        _sibling(ctx, case, "set_index", "drop", r, lambda: ddf.set_index(argd(), **kw2))
     post = x.get("post") if good and not second else None
     if post:
         keycols = [c for c in [col] if c not in exp.columns]
         hfeat = "set_index:drop=False" if (not case["drop"] and other in (None, "list1")) else \
             "set_index:other=series" if other in ("series", "expr") else "set_index:%s-column%s" % (ck, "&na-values" if hasna else "")
         _sorted_post(ctx, "set_index", feat, "set_index" + ("&other=series" if other in ("series", "expr") else ""), None, r, exp, pdf,
-                     parts, post, info, keyframe, "index", desc, True, keycols, hfeat)
+                     parts, post, info, keyframe, "index", desc, True, keycols, hfeat, base=ddf)
     ctx.sample = {"feat": feat, "partition_lengths": [len(p) for p in parts][:12]}
     return good
 
@@ -1457,6 +1646,7 @@ def _dedup(case, ctx, pdf, ddf):
             p2, d2 = pfull[cols], dfull[cols]
             ctx.count("drop_duplicates_after_shuffle")
             ctx.count("drop_duplicates_after_pre_step_" + info["kind"].split("+")[0])
+            ctx.count("dedup_after_knowledge_pre_step")
             if sub is not None:
                 ks, ss = set(info["keys"]), set(sub)
                 ctx.count("dedup_subset_%s_known_keys" % ("equals" if ss == ks else "part_of" if ss < ks else "superset_of" if ss > ks
@@ -1490,7 +1680,8 @@ def _dedup(case, ctx, pdf, ddf):
                                                         "subset" if sub else "whole-row", keep, sfeat)
         kwargs = {"subset": subarg, "keep": keep, "split_out": so, "split_every": se, "shuffle_method": method,
                   "ignore_index": case["ignore_index"]}
-        ok, got = _guard(ctx, feat, lambda: _concat(_parts(d2.drop_duplicates(**kwargs)), p2), desc)
+        ok, got = _guard(ctx, feat, lambda: _concat(_parts(d2.drop_duplicates(**kwargs)), p2), desc,
+                         pre_probe=(lambda: _parts(d2)) if x.get("pre") else None)
         if not ok:
             return
         ctx.count("drop_duplicates_checked")
@@ -1510,6 +1701,9 @@ def _dedup(case, ctx, pdf, ddf):
                                                                      "subset" if sub else "whole-row", spath, m[0]),
                           "surviving keys differ from pandas (as multisets): %s" % m[1], case=desc)
             return
+        if x and len(exp) < len(p2):
+            kw2 = dict(kwargs, keep="last" if keep == "first" else "first")
+            _sibling(ctx, case, "drop_duplicates", "keep", d2.drop_duplicates(**kwargs), lambda: d2.drop_duplicates(**kw2))
         # survivor facet: full rows (and index label unless ignore_index) of the kept duplicate.  Not judged after an
         # explicit shuffle: shuffle() documents that it keeps no meaningful order, so first/last are undefined there.
         if kind == "preshuffled":
